@@ -60,3 +60,42 @@ func (c *Capture) Write(p []byte) (int, error) {
 	c.Got = append(c.Got, p...)
 	return len(p), nil
 }
+
+// FailNth fails exactly the Nth Write call (0-based) and accepts every other one: a transient
+// destination failure.
+type FailNth struct {
+	N      int
+	Got    []byte
+	Writes int
+	Failed bool
+}
+
+func (w *FailNth) Write(p []byte) (int, error) {
+	i := w.Writes
+	w.Writes++
+	if i == w.N {
+		w.Failed = true
+		return 0, ErrInjected
+	}
+	w.Got = append(w.Got, p...)
+	return len(p), nil
+}
+
+// RefuseLarge refuses every single write larger than Max bytes (a message-size limit) and
+// accepts smaller ones, also after a refusal.
+type RefuseLarge struct {
+	Max    int
+	Got    []byte
+	Writes int
+	Failed bool
+}
+
+func (w *RefuseLarge) Write(p []byte) (int, error) {
+	w.Writes++
+	if len(p) > w.Max {
+		w.Failed = true
+		return 0, ErrInjected
+	}
+	w.Got = append(w.Got, p...)
+	return len(p), nil
+}
